@@ -131,18 +131,45 @@ def check_item(spec):
         if ob == "append-sym":
             qs = [z3.Int("r%d" % i) for i in range(spec["nqB"])]
             dom = [z3.And(q >= 0, q < nq) for q in qs] + [z3.Distinct(*qs)] if len(qs) > 1 else [z3.And(qs[0] >= 0, qs[0] < nq)]
-            R = copy.deepcopy(A)
-            try:
-                R.append_circuit(B, [symx.SxInt(q) for q in qs])
-            except Exception as e:
-                finding("append-raises", "%s: %s" % (type(e).__name__, str(e)[:100]))
+            def run_append():
+                R_ = copy.deepcopy(A)
+                R_.append_circuit(B, [symx.SxInt(q) for q in qs])
+                return R_
+
+            paths, aborted = symx.explore(run_append, base=dom, stats=st, maxpaths=200)
+            if aborted or not paths:
+                res.update(status="inconclusive", note="append: %d paths aborted" % aborted)
                 return st.into(res)
             if fp(B) != fb:
                 finding("operand-modified", "append_circuit modified the appended circuit")
-            lhs = simcirc_symwires(R.gates, xs, wire_term)
+            R = None
+            v = "unsat"
             mid = boolq.simcirc(A.gates, xs)
             rhs = simcirc_symwires(B.gates, mid, lambda w: qs[w])
-            v = st.check(s, z3.And(*dom), z3.Or(*[z3.Xor(a, b) for a, b in zip(lhs, rhs)]))
+            for pc, extra, r in paths:
+                if r[0] == "exc":
+                    s.push()
+                    s.add(*dom, *pc, *extra)
+                    if st.check(s) == "sat":
+                        m = s.model()
+                        remap = [m.eval(q, model_completion=True).as_long() for q in qs]
+                        try:
+                            copy.deepcopy(A).append_circuit(B, remap)
+                            res.update(status="inconclusive", note="symbolic run raised %s but the concrete run on remap %s does not" % (type(r[1]).__name__, remap))
+                        except Exception as e:
+                            finding("append-raises", "remap %s: %s: %s" % (remap, type(e).__name__, str(e)[:100]))
+                    s.pop()
+                    continue
+                R = r[1]
+                lhs = simcirc_symwires(R.gates, xs, wire_term)
+                s.push()
+                s.add(*pc, *extra)
+                v = st.check(s, z3.And(*dom), z3.Or(*[z3.Xor(a, b) for a, b in zip(lhs, rhs)]))
+                if v != "unsat":
+                    break
+                s.pop()
+            if R is None:
+                return st.into(res)
             if v == "sat":
                 m = s.model()
                 remap = [m.eval(q, model_completion=True).as_long() for q in qs]
@@ -217,13 +244,20 @@ def check_item(spec):
         elif v != "unsat":
             res.update(status="inconclusive", note="solver " + v)
         # independence
+        if ob == "iadd":
+            for g_, w_, p_ in R.gates:
+                if w_:
+                    w_[0] = (w_[0] + 1) % nq
+            if fp(B) != fb:
+                finding("aliasing", "mutating the result of A += B changed B")
         if ob == "add":
             R.x(0)
             R.qubit_map["zz"] = 0
-            if R.gates and R.gates[0][1]:
-                R.gates[0][1][0] = (R.gates[0][1][0] + 1) % nq
+            for g_, w_, p_ in R.gates:
+                if w_:
+                    w_[0] = (w_[0] + 1) % nq
             if fp(A) != fa or fp(B) != fb:
-                finding("aliasing", "mutating A + B changed an operand")
+                finding("aliasing", "mutating A + B (relabelling the qubits of its gates) changed an operand")
         return st.into(res)
 
     if ob == "repeat":
